@@ -280,3 +280,376 @@ Proof.
   constructor; auto.
   rewrite <- insert_at_end. apply ids_plug_insert_at.
 Qed.
+
+(* ---------------------------------------------------------------- equations of the merge specification *)
+Lemma move_t_inner : forall k d,
+  (fix ml (l : forest) (d : forest) {struct l} : forest * forest * nat :=
+     match l with
+     | [] => ([], d, 0)
+     | t' :: r =>
+       let '(o, d1', m1) := move_t t' d in
+       let '(r', d2', m2) := ml r d1' in
+       (match o with Some t'' => t'' :: r' | None => r' end, d2', m1 + m2)
+     end) k d = move_l k d.
+Proof.
+  induction k as [|t r IH]; intros d; [reflexivity|].
+  cbn [move_l]. destruct (move_t t d) as [[o d1] m1]. rewrite IH. reflexivity.
+Qed.
+
+Lemma move_t_nomatch i n v k dst :
+  split_name n [] dst = None -> move_t (T i n v k) dst = (None, dst ++ [T i n v k], 1).
+Proof. intros E. cbn [move_t]. rewrite E. reflexivity. Qed.
+
+Lemma move_t_leaf i n v dst d1 tj d2 :
+  split_name n [] dst = Some (d1, tj, d2) -> move_t (T i n v []) dst = (Some (T i n v []), dst, 0).
+Proof. intros E. cbn [move_t]. rewrite E. destruct tj. reflexivity. Qed.
+
+Lemma move_t_adopt i n v k dst d1 j nj w d2 :
+  split_name n [] dst = Some (d1, T j nj w [], d2) -> k <> [] ->
+  move_t (T i n v k) dst = (Some (T i n v []), d1 ++ T j nj w k :: d2, length k).
+Proof. intros E Hk. cbn [move_t]. rewrite E. destruct k; [contradiction|reflexivity]. Qed.
+
+Lemma move_t_merge i n v k dst d1 j nj w kd d2 :
+  split_name n [] dst = Some (d1, T j nj w kd, d2) -> k <> [] -> kd <> [] ->
+  move_t (T i n v k) dst =
+  (Some (T i n v (fst (fst (move_l k kd)))), d1 ++ T j nj w (snd (fst (move_l k kd))) :: d2, snd (move_l k kd)).
+Proof.
+  intros E Hk Hd. cbn [move_t]. rewrite E. destruct k as [|tk rk]; [contradiction|]. destruct kd as [|td rd]; [contradiction|].
+  rewrite (move_t_inner (tk :: rk) (td :: rd)). destruct (move_l (tk :: rk) (td :: rd)) as [[k' kd'] m]. reflexivity.
+Qed.
+
+Lemma move_l_cons t r d :
+  move_l (t :: r) d =
+  (match fst (fst (move_t t d)) with
+   | Some t'' => t'' :: fst (fst (move_l r (snd (fst (move_t t d)))))
+   | None => fst (fst (move_l r (snd (fst (move_t t d)))))
+   end,
+   snd (fst (move_l r (snd (fst (move_t t d))))),
+   snd (move_t t d) + snd (move_l r (snd (fst (move_t t d))))).
+Proof.
+  cbn [move_l]. destruct (move_t t d) as [[o d1] m1]. cbn [fst snd].
+  destruct (move_l r d1) as [[r' d2] m2]. reflexivity.
+Qed.
+
+
+(* ---------------------------------------------------------------- the loop of mpt_node_move *)
+Definition rec_of (f : nat) : heap -> nat -> ptr -> R (heap * nat) :=
+  fun h s ck => do '(h, _, m) <- node_move f h (FromKids s) ck; ROk (h, m).
+
+(* [from] addresses the start of the source list *)
+Definition from_ok (from : fromref) (fs : list frame) (Sl : forest) : Prop :=
+  match from with
+  | FromKids p => cpar fs = Some p
+  | FromLocal v => fs = [] /\ v = hid Sl
+  end.
+
+Lemma from_get_ok h from fs Sl :
+  from_ok from fs Sl -> rep_frames (cells h) fs (hid Sl) -> from_get h from = ROk (hid Sl).
+Proof.
+  destruct from as [p|v]; cbn [from_ok from_get].
+  - intros E Rf. destruct fs as [|fr r]; cbn in E; inversion E; subst.
+    cbn [rep_frames] in Rf. destruct Rf as (_ & Hc & _). rewrite (fld_ok _ _ _ _ Hc). reflexivity.
+  - intros [_ ->] _. reflexivity.
+Qed.
+
+Lemma st2_facts h fs fd rest kept s n v ks todo D :
+  rep_st (cells h) (st2 fs fd rest (kept ++ T s n v ks :: todo) D) ->
+  cells h s = Some (mkN (hid todo) (lastid kept None) (cpar fs) (hid ks) n v) /\
+  rep_l (cells h) (Some s) None ks None /\
+  rep_l (cells h) (cpar fd) None D None /\
+  rep_frames (cells h) fs (hid (kept ++ T s n v ks :: todo)) /\
+  rep_frames (cells h) fd (hid D).
+Proof.
+  unfold st2. rewrite rep_plug, rep_l_mid, rep_plug. rewrite <- hid_hid_or. tauto.
+Qed.
+
+Lemma st2_facts_list h fs fd rest Sl D :
+  rep_st (cells h) (st2 fs fd rest Sl D) ->
+  rep_frames (cells h) fs (hid Sl) /\ rep_l (cells h) (cpar fd) None D None /\ rep_frames (cells h) fd (hid D).
+Proof. unfold st2. rewrite !rep_plug. tauto. Qed.
+
+Lemma st2_ids fs fd rest Sl D :
+  Permutation (ids_st (st2 fs fd rest Sl D))
+              (ids_f Sl ++ ids_frs fs ++ ids_f D ++ ids_frs fd ++ ids_st rest).
+Proof. unfold st2. rewrite !ids_plug. reflexivity. Qed.
+
+(* the statement proved by induction on the size of the remaining source list *)
+Definition loop_ok (todo : forest) : Prop :=
+  forall h fs fd rest kept dcur from last d move f g,
+    let st := st2 fs fd rest (kept ++ todo) dcur in
+    rep_st (cells h) st -> NoDup (ids_st st) -> length (ids_st st) <= nextid h ->
+    hid dcur = Some d -> (exists j tl, nth_error dcur j = Some tl /\ tid tl = last) ->
+    from_ok from fs (kept ++ todo) ->
+    length (ids_st st) + 2 <= S f + length fs -> fsize todo < g ->
+    exists h' from',
+      move_loop (rec_of f) (S f) d g h from (hid todo) last move =
+        ROk (h', from', move + snd (move_l todo dcur)) /\
+      stepr h st h' (st2 fs fd rest (kept ++ fst (fst (move_l todo dcur))) (snd (fst (move_l todo dcur)))) /\
+      from_ok from' fs (kept ++ fst (fst (move_l todo dcur))).
+
+Lemma loop_nil : loop_ok [].
+Proof.
+  intros h fs fd rest kept dcur from last d move f g st R ND Hn Hd Hl Hfr Hb Hg.
+  destruct g; [cbn in Hg; lia|]. cbn [hid move_loop move_l fst snd]. rewrite Nat.add_0_r.
+  exists h, from. split; [reflexivity|]. split; [apply stepr_refl; exact R|exact Hfr].
+Qed.
+
+Lemma stepr_nodup h st h' st' : stepr h st h' st' -> NoDup (ids_st st) -> NoDup (ids_st st').
+Proof. intros [_ _ P _] ND. eapply Permutation_NoDup; [symmetry; exact P|exact ND]. Qed.
+
+Lemma stepr_len h st h' st' : stepr h st h' st' -> length (ids_st st) <= nextid h -> length (ids_st st') <= nextid h'.
+Proof. intros [[M _] _ P _] L. rewrite M, (Permutation_length P). exact L. Qed.
+
+(* the source element has no counterpart in the target list: it is moved *)
+Lemma loop_step_nomatch s n v ks todo' :
+  loop_ok todo' ->
+  forall h fs fd rest kept dcur from last d move f g,
+    let todo := T s n v ks :: todo' in
+    let st := st2 fs fd rest (kept ++ todo) dcur in
+    rep_st (cells h) st -> NoDup (ids_st st) -> length (ids_st st) <= nextid h ->
+    hid dcur = Some d -> (exists j tl, nth_error dcur j = Some tl /\ tid tl = last) ->
+    from_ok from fs (kept ++ todo) ->
+    length (ids_st st) + 2 <= S f + length fs -> fsize todo < g ->
+    split_name n [] dcur = None ->
+    exists h' from',
+      move_loop (rec_of f) (S f) d g h from (hid todo) last move =
+        ROk (h', from', move + snd (move_l todo dcur)) /\
+      stepr h st h' (st2 fs fd rest (kept ++ fst (fst (move_l todo dcur))) (snd (fst (move_l todo dcur)))) /\
+      from_ok from' fs (kept ++ fst (fst (move_l todo dcur))).
+Proof.
+  intros IH h fs fd rest kept dcur from last d move f g todo st R ND Hn Hd Hl Hfr Hb Hg Es.
+  subst todo st.
+  destruct (st2_facts _ _ _ _ _ _ _ _ _ _ _ R) as (Hs & Rks & RD & Rfs & Rfd).
+  destruct g as [|g]; [cbn in Hg; lia|]. rewrite fsize_cons, tsize_eq in Hg.
+  cbn [hid tid move_loop]. rewrite (get_ok _ _ _ Hs). cbn [rbind nname nnext].
+  (* locate: nothing of that name in the target list *)
+  destruct dcur as [|td dr] eqn:Ed; [discriminate|]. rewrite <- Ed in *. cbn [hid] in Hd.
+  assert (Hd' : d = tid td) by (rewrite Ed in Hd; cbn in Hd; congruence). subst d.
+  assert (Lids : length (ids_st (st2 fs fd rest (kept ++ T s n v ks :: todo') dcur)) =
+                 length (ids_f (kept ++ T s n v ks :: todo')) + length (ids_frs fs) + length (ids_f dcur) +
+                 length (ids_frs fd) + length (ids_st rest)).
+  { rewrite (Permutation_length (st2_ids _ _ _ _ _)), !app_length. lia. }
+  pose proof (frames_length fs) as Lfs. pose proof (length_le_ids dcur) as Ldc.
+  assert (Ls1 : 1 <= length (ids_f (kept ++ T s n v ks :: todo'))).
+  { rewrite ids_f_app, ids_f_cons, ids_t_eq, !app_length. cbn [length]. lia. }
+  rewrite (loc_first h (cpar fd) dcur n (S f) RD ltac:(lia) td dr Ed).
+  pose proof (split_name_spec n dcur [] 0) as Sp. rewrite Es in Sp.
+  destruct (matches n 0 dcur) as [|jj ms] eqn:Em.
+  2:{ rewrite Nat.sub_0_r in Sp. destruct (nth_error dcur jj) eqn:En; [discriminate|].
+      exfalso. apply nth_error_None in En.
+      pose proof (matches_bounds n dcur 0 jj) as B. rewrite Em in B. destruct (B (or_introl eq_refl)) as ((_ & B2) & _). lia. }
+  cbn [nth_error idx_id rbind].
+  (* unlink, append *)
+  destruct (st2_unlink h fs fd rest kept (T s n v ks) todo' dcur R ND) as (h1 & E1 & S1).
+  cbn [tid] in E1. rewrite E1. cbn [rbind].
+  destruct Hl as (jl & tl & Ejl & Etl). subst last.
+  destruct (st2_append h1 fs fd rest (kept ++ todo') dcur (T s n v ks) jl tl (sr_rep _ _ _ _ S1)
+              (stepr_nodup _ _ _ _ S1 ND) Ejl (stepr_len _ _ _ _ S1 Hn)) as (h2 & E2 & S2).
+  cbn [tid] in E2. rewrite E2. cbn [rbind].
+  pose proof (stepr_trans _ _ _ _ _ _ S1 S2) as S12.
+  (* the start of the source list *)
+  destruct (st2_facts_list h2 fs fd rest (kept ++ todo') (dcur ++ [T s n v ks]) (sr_rep _ _ _ _ S12)) as (Rfs2 & _).
+  assert (ND2 : NoDup (ids_st (st2 fs fd rest (kept ++ todo') (dcur ++ [T s n v ks])))) by exact (stepr_nodup _ _ _ _ S12 ND).
+  assert (Nhd : hid (kept ++ todo') <> Some s).
+  { intros K. eapply Permutation_NoDup in ND2; [|apply st2_ids].
+    apply NoDup_app_inv in ND2. destruct ND2 as (_ & _ & Dj). apply (Dj s).
+    - rewrite hid_hid_or in K. apply hid_or_in. exact K.
+    - apply in_or_app. right. apply in_or_app. left. rewrite ids_f_app, ids_f_cons, ids_t_eq.
+      apply in_or_app. right. left. reflexivity. }
+  assert (Fx : exists from',
+     (do fv <- from_get h2 from;
+      do x <- (if peq fv (Some s) then from_set h2 from (hid todo') else ROk (h2, from));
+      let '(h0, from0) := x in move_loop (rec_of f) (S f) (tid td) g h0 from0 (hid todo') s (S move)) =
+     move_loop (rec_of f) (S f) (tid td) g h2 from' (hid todo') s (S move) /\
+     from_ok from' fs (kept ++ todo')).
+  { destruct from as [p|vv]; cbn [from_ok] in Hfr.
+    - rewrite (from_get_ok h2 (FromKids p) fs (kept ++ todo') Hfr Rfs2). cbn [rbind].
+      destruct (peq (hid (kept ++ todo')) (Some s)) eqn:Ep.
+      + exfalso. apply Nhd. destruct (hid (kept ++ todo')) as [q|]; cbn in Ep; [|discriminate].
+        apply Nat.eqb_eq in Ep. congruence.
+      + cbn [rbind]. exists (FromKids p). split; [reflexivity|exact Hfr].
+    - destruct Hfr as [-> ->]. cbn [from_get rbind].
+      destruct kept as [|tk kr]; cbn [app hid tid peq].
+      + rewrite Nat.eqb_refl. cbn [from_set rbind]. exists (FromLocal (hid todo')). split; [reflexivity|].
+        cbn [from_ok]. auto.
+      + destruct (Nat.eqb_spec (tid tk) s) as [K|K].
+        * exfalso. apply Nhd. cbn [app hid]. congruence.
+        * cbn [rbind]. exists (FromLocal (Some (tid tk))). split; [reflexivity|]. cbn [from_ok app hid]. auto. }
+  destruct Fx as (from' & Efx & Hfr').
+  replace (hid_or todo' None) with (hid todo') by apply hid_hid_or.
+  rewrite Efx.
+  (* the rest of the loop *)
+  destruct (IH h2 fs fd rest kept (dcur ++ [T s n v ks]) from' s (tid td) (S move) f g) as (h3 & from3 & E3 & S3 & Hfr3).
+  - exact (sr_rep _ _ _ _ S12).
+  - exact ND2.
+  - exact (stepr_len _ _ _ _ S12 Hn).
+  - rewrite Ed. reflexivity.
+  - exists (length dcur), (T s n v ks). split; [|reflexivity].
+    rewrite nth_error_app2, Nat.sub_diag by lia. reflexivity.
+  - exact Hfr'.
+  - rewrite (Permutation_length (sr_ids _ _ _ _ S12)). exact Hb.
+  - lia.
+  - rewrite (move_l_cons (T s n v ks) todo' dcur), (move_t_nomatch _ _ _ _ _ Es). cbn [fst snd].
+    exists h3, from3. split; [rewrite E3; f_equal; f_equal; lia|]. split; [|exact Hfr3].
+    exact (stepr_trans _ _ _ _ _ _ S12 S3).
+Qed.
+
+Lemma st2_down fs fd rest a s n v b d1 c nj w d2 ks kd :
+  st2 (Fr a s n v b :: fs) (Fr d1 c nj w d2 :: fd) rest ks kd =
+  st2 fs fd rest (a ++ T s n v ks :: b) (d1 ++ T c nj w kd :: d2).
+Proof. reflexivity. Qed.
+
+Lemma nth_error_mid_tid (d1 d2 : forest) (x y : tree) j tl :
+  tid x = tid y -> nth_error (d1 ++ x :: d2) j = Some tl ->
+  exists tl', nth_error (d1 ++ y :: d2) j = Some tl' /\ tid tl' = tid tl.
+Proof.
+  intros Exy E. destruct (Nat.lt_ge_cases j (length d1)) as [L|L].
+  - rewrite nth_error_app1 in E |- * by assumption. eauto.
+  - rewrite nth_error_app2 in E |- * by assumption. destruct (j - length d1) as [|k]; cbn [nth_error] in *.
+    + inversion E; subst. eauto.
+    + eauto.
+Qed.
+
+Lemma hid_mid_tid (d1 d2 : forest) (x y : tree) : tid x = tid y -> hid (d1 ++ x :: d2) = hid (d1 ++ y :: d2).
+Proof. intros E. destruct d1; cbn; [rewrite E|]; reflexivity. Qed.
+
+(* the source element has a counterpart in the target list: it stays; its children
+   are merged into (or adopted by) the counterpart *)
+Lemma loop_step_match s n v ks todo' :
+  (forall y, fsize y < fsize (T s n v ks :: todo') -> loop_ok y) ->
+  forall h fs fd rest kept dcur from last d move f g,
+    let todo := T s n v ks :: todo' in
+    let st := st2 fs fd rest (kept ++ todo) dcur in
+    rep_st (cells h) st -> NoDup (ids_st st) -> length (ids_st st) <= nextid h ->
+    hid dcur = Some d -> (exists j tl, nth_error dcur j = Some tl /\ tid tl = last) ->
+    from_ok from fs (kept ++ todo) ->
+    length (ids_st st) + 2 <= S f + length fs -> fsize todo < g ->
+    forall d1 c nj w kd d2, split_name n [] dcur = Some (d1, T c nj w kd, d2) ->
+    exists h' from',
+      move_loop (rec_of f) (S f) d g h from (hid todo) last move =
+        ROk (h', from', move + snd (move_l todo dcur)) /\
+      stepr h st h' (st2 fs fd rest (kept ++ fst (fst (move_l todo dcur))) (snd (fst (move_l todo dcur)))) /\
+      from_ok from' fs (kept ++ fst (fst (move_l todo dcur))).
+Proof.
+  intros IH h fs fd rest kept dcur from last d move f g todo st R ND Hn Hd Hl Hfr Hb Hg d1 c nj w kd d2 Es.
+  subst todo st.
+  destruct (st2_facts _ _ _ _ _ _ _ _ _ _ _ R) as (Hs & Rks & RD & Rfs & Rfd).
+  destruct g as [|g]; [cbn in Hg; lia|]. rewrite fsize_cons, tsize_eq in Hg.
+  cbn [hid tid move_loop]. rewrite (get_ok _ _ _ Hs). cbn [rbind nname nnext nkid].
+  destruct dcur as [|td dr] eqn:Ed0; [discriminate|]. rewrite <- Ed0 in *.
+  assert (Hd' : d = tid td) by (rewrite Ed0 in Hd; cbn in Hd; congruence). subst d.
+  assert (Lids : length (ids_st (st2 fs fd rest (kept ++ T s n v ks :: todo') dcur)) =
+                 length (ids_f (kept ++ T s n v ks :: todo')) + length (ids_frs fs) + length (ids_f dcur) +
+                 length (ids_frs fd) + length (ids_st rest)).
+  { rewrite (Permutation_length (st2_ids _ _ _ _ _)), !app_length. lia. }
+  pose proof (frames_length fs) as Lfs. pose proof (length_le_ids dcur) as Ldc.
+  assert (Ls1 : S (length (ids_f ks)) <= length (ids_f (kept ++ T s n v ks :: todo'))).
+  { rewrite ids_f_app, ids_f_cons, ids_t_eq, !app_length. cbn [length]. rewrite ?app_length. lia. }
+  rewrite (loc_first h (cpar fd) dcur n (S f) RD ltac:(lia) td dr Ed0).
+  pose proof (split_name_spec n dcur [] 0) as Sp. rewrite Es in Sp.
+  destruct (matches n 0 dcur) as [|jj ms] eqn:Em; [discriminate|]. rewrite Nat.sub_0_r in Sp.
+  destruct (nth_error dcur jj) as [tc|] eqn:Ej; [|discriminate]. inversion Sp; subst d1 tc d2. clear Sp.
+  cbn [nth_error idx_id]. unfold nth_id. rewrite Ej. cbn [option_map tid rbind].
+  destruct (insert_at_split dcur jj _ (T 0 0 0 []) Ej) as (Ed & _ & _).
+  set (d1 := firstn jj dcur) in *. set (d2 := skipn (S jj) dcur) in *.
+  (* the cell of the counterpart *)
+  pose proof RD as RD0. rewrite Ed, rep_l_mid in RD0. destruct RD0 as (_ & Hc & _).
+  assert (Lkd : S (length (ids_f kd)) <= length (ids_f dcur)).
+  { rewrite Ed, ids_f_app, ids_f_cons, ids_t_eq, !app_length. cbn [length]. rewrite ?app_length. lia. }
+  (* A: the children *)
+  assert (A : exists h1 ks' kd',
+     (match hid ks with
+      | None => ROk (h, move)
+      | Some _ =>
+        do ck <- fld nkid h (Some c);
+        match ck with
+        | Some _ => do '(h, m) <- rec_of f h s ck; ROk (h, move + m)
+        | None =>
+          do h <- wr set_kid h c (hid ks);
+          do h <- wr set_kid h s None;
+          reparent (S f) h (hid ks) c move
+        end
+      end) = ROk (h1, move + snd (move_t (T s n v ks) dcur)) /\
+     move_t (T s n v ks) dcur = (Some (T s n v ks'), d1 ++ T c nj w kd' :: d2, snd (move_t (T s n v ks) dcur)) /\
+     stepr h (st2 fs fd rest (kept ++ T s n v ks :: todo') dcur)
+           h1 (st2 fs fd rest (kept ++ T s n v ks' :: todo') (d1 ++ T c nj w kd' :: d2))).
+  { destruct ks as [|tk rk].
+    - (* no children *)
+      exists h, [], kd. rewrite (move_t_leaf _ _ _ _ _ _ _ Es). cbn [hid snd]. rewrite Nat.add_0_r.
+      split; [reflexivity|]. split; [rewrite <- Ed; reflexivity|]. rewrite <- Ed. apply stepr_refl. exact R.
+    - set (ks := tk :: rk) in *. assert (Hks : hid ks = Some (tid tk)) by reflexivity. rewrite Hks.
+      rewrite (fld_ok _ _ _ _ Hc). cbn [rbind nkid].
+      destruct kd as [|tkd rkd].
+      + (* the counterpart has no children: it adopts them *)
+        cbn [hid]. rewrite <- Hks.
+        assert (Est : st2 fs fd rest (kept ++ T s n v ks :: todo') dcur =
+                      plug (Fr kept s n v todo' :: fs, plug (Fr d1 c nj w d2 :: fd, rest) []) ks).
+        { rewrite Ed at 1. reflexivity. }
+        rewrite Est in R, ND.
+        destruct (adopt_rep h fs fd rest kept s n v todo' d1 c nj w d2 ks (S f) move R ND) as (h1 & E1 & S1).
+        { pose proof (length_le_ids ks). lia. }
+        rewrite E1. exists h1, [], ks.
+        rewrite (move_t_adopt _ _ _ _ _ _ _ _ _ _ Es) by discriminate. cbn [snd].
+        split; [reflexivity|]. split; [reflexivity|]. rewrite Est. exact S1.
+      + (* both have children: merge them, one level down *)
+        set (kd := tkd :: rkd) in *. assert (Hkd : hid kd = Some (tid tkd)) by reflexivity. rewrite Hkd.
+        destruct f as [|f']; [lia|].
+        unfold rec_of at 1. cbn [node_move]. cbn [from_get]. rewrite (fld_ok _ _ _ _ Hs). cbn [rbind nkid]. rewrite Hks, <- Hks.
+        assert (Est : st2 fs fd rest (kept ++ T s n v ks :: todo') dcur =
+                      st2 (Fr kept s n v todo' :: fs) (Fr d1 c nj w d2 :: fd) rest ([] ++ ks) kd).
+        { rewrite Ed at 1. reflexivity. }
+        assert (IHk : loop_ok ks) by (apply IH; rewrite fsize_cons, tsize_eq; lia).
+        destruct (IHk h (Fr kept s n v todo' :: fs) (Fr d1 c nj w d2 :: fd) rest [] kd (FromKids s) (tid tkd) (tid tkd) 0 f' (S f'))
+          as (h1 & from1 & E1 & S1 & _).
+        * rewrite <- Est. exact R.
+        * rewrite <- Est. exact ND.
+        * rewrite <- Est. exact Hn.
+        * exact Hkd.
+        * exists 0, tkd. split; reflexivity.
+        * reflexivity.
+        * rewrite <- Est. cbn [length]. lia.
+        * rewrite fsize_ids. lia.
+        * change (fun (h0 : heap) (s0 : nat) (ck : ptr) => do '(h1, _, m) <- node_move f' h0 (FromKids s0) ck; ROk (h1, m))
+            with (rec_of f').
+          rewrite E1. cbn [rbind Nat.add].
+          exists h1, (fst (fst (move_l ks kd))), (snd (fst (move_l ks kd))).
+          rewrite (move_t_merge _ _ _ _ _ _ _ _ _ _ _ Es) by discriminate. cbn [snd].
+          split; [reflexivity|]. split; [reflexivity|].
+          rewrite Est. cbn [app] in S1. rewrite st2_down in S1. exact S1. }
+  destruct A as (h1 & ks' & kd' & EA & Emt & S1).
+  rewrite EA. cbn [rbind].
+  (* B: the next source element *)
+  destruct (st2_facts _ _ _ _ _ _ _ _ _ _ _ (sr_rep _ _ _ _ S1)) as (Hs1 & _).
+  rewrite (fld_ok _ _ _ _ Hs1). cbn [rbind nnext].
+  (* C: the rest of the loop *)
+  assert (IHt : loop_ok todo') by (apply IH; rewrite fsize_cons, tsize_eq; lia).
+  destruct Hl as (jl & tl & Ejl & Etl).
+  destruct (nth_error_mid_tid d1 d2 (T c nj w kd) (T c nj w kd') jl tl eq_refl ltac:(rewrite <- Ed; exact Ejl)) as (tl' & Ejl' & Etl').
+  destruct (IHt h1 fs fd rest (kept ++ [T s n v ks']) (d1 ++ T c nj w kd' :: d2) from last (tid td)
+                (move + snd (move_t (T s n v ks) dcur)) f g) as (h2 & from2 & E2 & S2 & Hfr2).
+  - rewrite <- app_assoc. exact (sr_rep _ _ _ _ S1).
+  - rewrite <- app_assoc. exact (stepr_nodup _ _ _ _ S1 ND).
+  - rewrite <- app_assoc. exact (stepr_len _ _ _ _ S1 Hn).
+  - rewrite <- (hid_mid_tid d1 d2 (T c nj w kd) (T c nj w kd') eq_refl), <- Ed. exact Hd.
+  - exists jl, tl'. split; [exact Ejl'|congruence].
+  - rewrite <- app_assoc. cbn [app]. destruct from as [p|vv]; cbn [from_ok] in *; [exact Hfr|].
+    destruct Hfr as [-> ->]. split; [reflexivity|]. apply (hid_mid_tid kept todo' (T s n v ks) (T s n v ks') eq_refl).
+  - rewrite <- app_assoc. cbn [app]. rewrite (Permutation_length (sr_ids _ _ _ _ S1)). exact Hb.
+  - lia.
+  - rewrite (move_l_cons (T s n v ks) todo' dcur), Emt. cbn [fst snd].
+    assert (Eapp : forall X : forest, kept ++ T s n v ks' :: X = (kept ++ [T s n v ks']) ++ X)
+      by (intros X; rewrite <- app_assoc; reflexivity).
+    rewrite !Eapp. rewrite Eapp in S1.
+    exists h2, from2. split; [rewrite E2; f_equal; f_equal; lia|]. split; [|exact Hfr2].
+    exact (stepr_trans _ _ _ _ _ _ S1 S2).
+Qed.
+
+Lemma loop_all : forall todo, loop_ok todo.
+Proof.
+  intros todo. induction todo as [todo IH] using (well_founded_induction (well_founded_ltof _ fsize)).
+  unfold ltof in IH. destruct todo as [|[s n v ks] todo']; [exact loop_nil|].
+  intros h fs fd rest kept dcur from last d move f g st R ND Hn Hd Hl Hfr Hb Hg.
+  destruct (split_name n [] dcur) as [[[d1 [c nj w kd]] d2]|] eqn:Es.
+  - exact (loop_step_match s n v ks todo' IH h fs fd rest kept dcur from last d move f g R ND Hn Hd Hl Hfr Hb Hg _ _ _ _ _ _ Es).
+  - apply (loop_step_nomatch s n v ks todo'); auto. apply IH. rewrite fsize_cons, tsize_eq. lia.
+Qed.
